@@ -376,7 +376,7 @@ def run(ctx):
                 continue
             seen.add(mech)
             ctx.violation(mech, "%s [seed %d]" % (what, seed), info)
-    ctx.floor_distinct = 150 if ctx.quick else 1500
-    ctx.floor_counters = {"histories": 200, "reprepares_observed": 150, "executes_resent_after_reprepare": 60, "outcome_mismatch": 20,
-                          "outcome_ok": 30, "outcome_prepare-error": 10, "outcome_timeout": 5, "outcome_valueerror": 5, "outcome_nohost": 3,
-                          "histories_on_keyspace_carrying_protocol": 30, "keyspace_scenario_param": 3}
+    ctx.floor_distinct = 120 if ctx.quick else 1500
+    ctx.floor_counters = {"histories": 150, "reprepares_observed": 100, "executes_resent_after_reprepare": 40, "outcome_mismatch": 15,
+                          "outcome_ok": 20, "outcome_prepare-error": 10, "outcome_timeout": 5, "outcome_valueerror": 5, "outcome_nohost": 3,
+                          "histories_on_keyspace_carrying_protocol": 20, "keyspace_scenario_param": 3}
